@@ -55,14 +55,14 @@ theorem GcSim.refl (c : ClientLimiter) (τ : Nat) (h : ∀ k, (c.bucketOf k).las
   ⟨rfl, fun k => ⟨h k, h k⟩, fun _ _ _ => rfl⟩
 
 theorem gcSim_allow {c1 c2 : ClientLimiter} {τ : Nat} (h : GcSim c1 c2 τ) (e : Ev) (hte : τ ≤ e.t) :
-    (c1.allowN e.addr e.t e.n).1 = (c2.allowN e.addr e.t e.n).1 ∧
-    GcSim (c1.allowN e.addr e.t e.n).2 (c2.allowN e.addr e.t e.n).2 e.t := by
+    (c1.allowNAt e.addr e.t e.n).1 = (c2.allowNAt e.addr e.t e.n).1 ∧
+    GcSim (c1.allowNAt e.addr e.t e.n).2 (c2.allowNAt e.addr e.t e.n).2 e.t := by
   obtain ⟨ho, hl, ha⟩ := h
   have hlim : c1.limit = c2.limit := by simp [ClientLimiter.limit, ho]
   have hbu : c1.burst = c2.burst := by simp [ClientLimiter.burst, ho]
   have hk := ha (mask c1.opts e.addr) e.t hte
   have hc := Bucket.allowN_congr c1.limit c1.burst _ _ e.t e.n hk
-  have hfst : (c1.allowN e.addr e.t e.n).1 = (c2.allowN e.addr e.t e.n).1 := by
+  have hfst : (c1.allowNAt e.addr e.t e.n).1 = (c2.allowNAt e.addr e.t e.n).1 := by
     rw [ClientLimiter.allowN_fst, ClientLimiter.allowN_fst, ← ho, ← hlim, ← hbu]; exact hc.1
   refine ⟨hfst, by simpa using ho, fun k => ?_, fun k t ht => ?_⟩
   · by_cases hkk : mask c1.opts e.addr = k
@@ -118,7 +118,7 @@ theorem gcSim_gc {c1 c2 : ClientLimiter} {τ : Nat} (h : GcSim c1 c2 τ) (now : 
 theorem gc_transparent_gen :
     ∀ (os : List Op) (c1 c2 : ClientLimiter) (τ : Nat), GcSim c1 c2 τ → sortedFrom τ os →
       c1.burst * nano ≤ c1.limit * maxDuration →
-      c1.runOpsWith true os = c2.run (Op.evs os) := by
+      c1.runOpsAtWith true os = c2.runAt (Op.evs os) := by
   intro os
   induction os with
   | nil => intro _ _ _ _ _ _; rfl
@@ -128,12 +128,12 @@ theorem gc_transparent_gen :
     cases o with
     | gc now only =>
       simp only [Op.time] at hte hsort'
-      simp only [ClientLimiter.runOpsWith, Op.evs]
+      simp only [ClientLimiter.runOpsAtWith, Op.evs]
       exact ih _ _ now (gcSim_gc hsim now only hte hs) hsort' (by simpa using hs)
     | allow e =>
       simp only [Op.time] at hte hsort'
       have h := gcSim_allow hsim e hte
-      simp only [ClientLimiter.runOpsWith, Op.evs, ClientLimiter.run]
+      simp only [ClientLimiter.runOpsAtWith, Op.evs, ClientLimiter.runAt]
       rw [h.1, ih _ _ e.t h.2 hsort' (by simpa using hs)]
 
 end MosVerif.Limiter
